@@ -40,6 +40,10 @@ def alias_checks():
             i_tp = impl[args + (...,)] if arity == "var" else impl[args]
             label = f"{getattr(abstract, '__module__', '')}.{getattr(abstract, '_name', None) or abstract.__name__}[{', '.join(getattr(x, '__name__', repr(x)) for x in args)}]"
             for kind, samples in (("load", load_samples), ("dump", dump_samples)):
+                if kind == "dump" and arity != 2:
+                    # documented: the dumper of every iterable produces a tuple (or a list for list children) — for an abstract
+                    # iterable that is the tuple spelling, whatever container the LOADER builds
+                    i_tp = typing.Tuple[args + (...,)]
                 n += 1
                 try:
                     fa = retort.get_loader(a_tp) if kind == "load" else retort.get_dumper(a_tp)
